@@ -3,6 +3,7 @@
   (header completed below)
 -/
 import Rngs.Lib.JitterEntropyLemmas
+import Rngs.Lib.JitterPairLemmas
 import Rngs.Props.C12
 import Rngs.Props.C15
 namespace Rngs.Extra.JitterEntropy
@@ -155,6 +156,94 @@ theorem genEntropy_last_delta_not_lost (j : Rng) (hr : 0 < j.rounds) (pre : List
     (h' : genEntropy j (pre ++ c :: t' :: e :: rest') = some ((v', j₁'), rest'))
     (hd : (t.setWidth 32 : U32) ≠ t'.setWidth 32) : v ≠ v' :=
   fun he => hd ((genEntropy_last_time_reading j hr pre c t e c t' e rest rest' v v' j₁ j₁' h h').1 he)
+
+/-! ## (b3) time readings: ONE time reading anywhere in the collection
+
+Moving the time reading `T` of a measurement changes two consecutive deltas, `T − T_prev` and
+`T_next − T`, in opposite directions.  Could the two changes cancel in the pool?  No.  With
+`u`, `w` the xor-differences of the two deltas, the pools after the second measurement coincide iff
+`lfsr (rotl7 (lfsr 0 (sext u))) (sext w) = 0` (first measurement accepted) resp.
+`lfsr (lfsr 0 (sext u)) (sext w) = 0` (first measurement stuck) — GF(2)-linear conditions on the 64-bit
+word `w:u`.  The second map is injective; the first has exactly one non-zero root,
+`u = 0x1193a153`, `w = 0xe1ee051a` (literal matrices of `Cert/JitterPairCert`, generated by
+`tools/gen_jitter_pair_cert.py`, checked by the kernel on the 64 one-bit vectors).  But `u` is odd and `w`
+even there, while the two xor-differences always have the same lowest bit (that of `T ^^^ T'`): the root
+never occurs. -/
+
+/-- the roots of the two-measurement maps, as statements about 32-bit xor-differences -/
+theorem two_deltas_roots (u w : U32) :
+    (lfsr ((lfsr 0 (u.signExtend 64)).rotateLeft 7) (w.signExtend 64) = 0 →
+      (u = 0 ∧ w = 0) ∨ (u.getLsbD 0 = true ∧ w.getLsbD 0 = false)) ∧
+    (lfsr (lfsr 0 (u.signExtend 64)) (w.signExtend 64) = 0 → u = 0 ∧ w = 0) :=
+  ⟨JitterPair.acc_root u w, JitterPair.stuck_root u w⟩
+
+/-- … and the one non-zero root is a root indeed (so "never cancel" is a fact about the arithmetic of
+    time stamps, not about the LFSR alone) -/
+theorem two_deltas_root_exists :
+    lfsr ((lfsr 0 ((0x1193a153#32).signExtend 64)).rotateLeft 7) ((0xe1ee051a#32).signExtend 64) = 0 := by
+  decide +kernel
+
+/-- **two consecutive measurements never cancel.**  Previous time stamp `p`, then `T` resp. `T'`, then
+    `U`, the same two verdicts in both runs: the pools after the second measurement are equal iff
+    `T ≡ T'` mod 2^32. -/
+theorem two_deltas_never_cancel (pool p T T' U : U64) (s s₂ : Bool) :
+    JitterProc.absorb (JitterProc.absorb pool ⟨JitterProc.trunc32 (T - p), s⟩) ⟨JitterProc.trunc32 (U - T), s₂⟩ =
+      JitterProc.absorb (JitterProc.absorb pool ⟨JitterProc.trunc32 (T' - p), s⟩) ⟨JitterProc.trunc32 (U - T'), s₂⟩ ↔
+    JitterProc.trunc32 T = JitterProc.trunc32 T' :=
+  JitterPair.pair_absorb_eq_iff pool p T T' U s s₂
+
+/-- **J1(b3) — the fully general statement is TRUE.**  Two collections from the same state on reading
+    lists that are identical except for ONE time reading (`pre.length % 3 = 1`: position of a time
+    reading; `T` resp. `T'`), that consume the same readings (`pre ++ [c, T, e] ++ mid`, leaving exactly
+    `rest` resp. `rest'`) and come to the same stuck verdict on every consumed measurement: the returned
+    values are equal iff `T ≡ T'` mod 2^32 — iff the delta of that measurement is the same `i32`. -/
+theorem genEntropy_one_time_reading (j : Rng) (pre mid : List U64) (c T T' e : U64)
+    (rest rest' : List U64) (v v' : U64) (j₁ j₁' : Rng) (hp : pre.length % 3 = 1)
+    (h : genEntropy j (pre ++ c :: T :: e :: (mid ++ rest)) = some ((v, j₁), rest))
+    (h' : genEntropy j (pre ++ c :: T' :: e :: (mid ++ rest')) = some ((v', j₁'), rest'))
+    (hf : (measurements (pre ++ c :: T :: e :: mid)).map (·.stuck) =
+          (measurements (pre ++ c :: T' :: e :: mid)).map (·.stuck)) :
+    v = v' ↔ (T.setWidth 32 : U32) = T'.setWidth 32 :=
+  JitterPair.genEntropy_one_time_reading j pre mid c T T' e rest rest' v v' j₁ j₁' hp h h' hf
+
+/-- … no time reading is lost: one that differs in its low 32 bits (same verdicts) changes the value -/
+theorem genEntropy_time_reading_not_lost (j : Rng) (pre mid : List U64) (c T T' e : U64)
+    (rest rest' : List U64) (v v' : U64) (j₁ j₁' : Rng) (hp : pre.length % 3 = 1)
+    (h : genEntropy j (pre ++ c :: T :: e :: (mid ++ rest)) = some ((v, j₁), rest))
+    (h' : genEntropy j (pre ++ c :: T' :: e :: (mid ++ rest')) = some ((v', j₁'), rest'))
+    (hf : (measurements (pre ++ c :: T :: e :: mid)).map (·.stuck) =
+          (measurements (pre ++ c :: T' :: e :: mid)).map (·.stuck))
+    (hd : (T.setWidth 32 : U32) ≠ T'.setWidth 32) : v ≠ v' :=
+  fun he => hd ((genEntropy_one_time_reading j pre mid c T T' e rest rest' v v' j₁ j₁' hp h h' hf).1 he)
+
+/-- the other readings (positions `≢ 1` mod 3 after the priming one: loop counts) never reach the
+    value: it depends on the time stamps only -/
+theorem genEntropy_value_depends_on_times (j : Rng) (rs rs' : List U64)
+    (ht : JitterProc.times rs = JitterProc.times rs') :
+    (genEntropy j rs).map (·.1.1) = (genEntropy j rs').map (·.1.1) := by
+  have e := genEntropy_eq_used j rs
+  have e' := genEntropy_eq_used j rs'
+  have hm : measurements rs = measurements rs' := by
+    unfold JitterProc.measurements; rw [ht]
+  have hu : usedMeas j.rounds rs = usedMeas j.rounds rs' := by unfold usedMeas; rw [hm]
+  have f := congrArg (Option.map Prod.fst) e
+  have f' := congrArg (Option.map Prod.fst) e'
+  simp only [Option.map_map, Function.comp_def] at f f'
+  rw [f, f', hu]
+
+/-- hypotheses of `genEntropy_one_time_reading` satisfiable: the time reading of the second measurement
+    is 117 resp. 118 (deltas 5, 12, 43 resp. 5, 13, 42 — two deltas change), all accepted -/
+example :
+    (measurements ([100, 0, 105, 0] ++ 0 :: 117 :: 0 :: [0, 160, 0])).map (·.stuck) = [false, false, false] ∧
+    (measurements ([100, 0, 105, 0] ++ 0 :: 118 :: 0 :: [0, 160, 0])).map (·.stuck) = [false, false, false] := by
+  decide +kernel
+
+example :
+    (genEntropy { newWithTimer with rounds := 2 } ([100, 0, 105, 0] ++ 0 :: 117 :: 0 :: ([0, 160, 0] ++ [9]))).map
+      (fun r => (r.1.1, r.2)) = some (0x6c380e0e6c8b361b#64, [9]) ∧
+    (genEntropy { newWithTimer with rounds := 2 } ([100, 0, 105, 0] ++ 0 :: 118 :: 0 :: ([0, 160, 0] ++ []))).map
+      (fun r => (r.1.1, r.2)) = some (0xb317a91c62e551a9#64, []) := by
+  decide +kernel
 
 /-! # J2 — what a collection consumes, and that the round count matters -/
 
